@@ -87,6 +87,10 @@ def _hook(ev, args):
     if st["mode"] == "fail" and st["count"] == st["fail_at"]:
         st["mode"] = "count"            # single fault; the rest of the call is only recorded
         st["fired"] = st["count"]
+        if st.get("exc") == "kbd":
+            # the save / load is INTERRUPTED at this operation (not an Exception subclass)
+            raise KeyboardInterrupt("verif: injected interruption at operation %d (%s %s)" % (
+                st["count"], ev, a))
         raise OSError(errno.EIO, "verif: injected failure of operation %d (%s %s)" % (
             st["count"], ev, a))
 
@@ -97,9 +101,9 @@ def install():
         INJ["installed"] = True
 
 
-def _arm(root, fail_at):
+def _arm(root, fail_at, exc="os"):
     INJ.update(mode="fail" if fail_at else "count", root=root, count=0, fail_at=fail_at,
-               ops=[], fired=0)
+               ops=[], fired=0, exc=exc)
 
 
 def _disarm():
@@ -211,7 +215,7 @@ class Case:
         return nbak, other, tmpleft
 
     # -- operations ---------------------------------------------------------
-    def save(self, fmt, bk, fault):
+    def save(self, fmt, bk, fault, fexc="os"):
         self.gen += 1
         corpus.set_gen(self.model, self.kind, self.gen)
         g, fp = corpus.fingerprint(self.model, self.kind)
@@ -220,7 +224,7 @@ class Case:
         reg0 = self.registry()
         path = self.slot_path(0)
         raised, exc = False, "none"
-        _arm(self.root, fault)
+        _arm(self.root, fault, fexc)
         try:
             if fmt == "dir":
                 self.model.write(path, backup=bk)
@@ -243,12 +247,12 @@ class Case:
             os.mkdir(os.path.join(self.root, "tmp"))
         return ev
 
-    def load(self, slot, fault):
+    def load(self, slot, fault, fexc="os"):
         reg0 = self.registry()
         name = "L"
         raised, exc, got = False, "none", {"gen": 0, "fp": 0}
         m2 = None
-        _arm(self.root, fault)
+        _arm(self.root, fault, fexc)
         try:
             m2 = self.mx.read_model(self.slot_path(slot), name=name)
         except BaseException as e:      # noqa: B902
@@ -287,8 +291,8 @@ class Case:
 
     def step(self, st, fault):
         if st["op"] == "save":
-            return self.save(st["fmt"], st["bk"], fault)
-        return self.load(st["slot"], fault)
+            return self.save(st["fmt"], st["bk"], fault, st.get("exc", "os"))
+        return self.load(st["slot"], fault, st.get("exc", "os"))
 
 
 # ---------------------------------------------------------------------------
@@ -412,6 +416,8 @@ def expand(job):
         for i in choice:
             s2 = [dict(s) for s in steps]
             s2[idx]["fault"] = i
+            # every third fault point is an interruption (KeyboardInterrupt) instead of an OSError
+            s2[idx]["exc"] = "kbd" if (i + job.get("seed", 0)) % 3 == 0 else "os"
             rec(s2, False)
 
     rec([dict(s) for s in job["steps"]], True)
